@@ -567,6 +567,9 @@ func (s *gridScreen) setCursorPos(x, y int) {
 
 func (s *gridScreen) setScrollMarginTopBottom(top, bottom int) {
 	debugPrintln(debugScroll, "scroll margins:", top, bottom)
+	if top > bottom {
+		return
+	}
 	s.topMargin = clamp(top, 0, s.size.Y-1)
 	s.bottomMargin = clamp(bottom, 0, s.size.Y-1)
 }
